@@ -204,11 +204,27 @@ class UHSEnumerator(ProgramEnumerator[None], ABC, Generic[U, V, W]):
         if len(self._start_heap) == 0:
             return None
         elem = heappop(self._start_heap)
-        self.query(elem.start, elem.program)
+        self.__ensure_popped__(elem.start, elem.program)
         while elem.program in self.deleted:
             elem = heappop(self._start_heap)
-            self.query(elem.start, elem.program)
+            self.__ensure_popped__(elem.start, elem.program)
         return elem.program
+
+    def __ensure_popped__(self, S: Tuple[Type, U], program: Program) -> None:
+        """
+        Make sure that program has been taken out of the heap of S, so that its successors have been generated.
+        The start heap and the heap of S may order programs of equal priority differently,
+        hence program is not necessarily the last program taken out of the heap of S.
+        """
+        hash_program = hash(program)
+        tail: Optional[Program] = None
+        while hash_program not in self.pred[S]:
+            key = hash(tail) if tail else 123891
+            while key in self.succ[S]:
+                tail = self.succ[S][key]
+                key = hash(tail)
+            if hash_program in self.pred[S] or self.query(S, tail) is None:
+                break
 
     def __add_successors_to_heap__(
         self,
